@@ -6,12 +6,15 @@ from common import pmap
 
 
 def observe(name):
+    ro = "n"
+    if isinstance(name, (tuple, list)):
+        name, ro = name[0], name[1]
     import glyles.glycans.mono.monomer as mono
     import glyles.glycans.poly.merger as merger
     M, G = mono.Monomer, merger.Merger
     o_mark, o_chir, o_smiles, o_root = M.mark, M.to_chirality, M.to_smiles, M.root_atom_id
     g_mark, g_merge = G.mark, G.merge_int
-    rec = {"name": name, "calls_mark": [], "calls_merge": [], "exc": None, "phase": None}
+    rec = {"name": name, "ro": ro, "calls_mark": [], "calls_merge": [], "exc": None, "phase": None}
     state = {"t": None, "depth_mark": 0, "depth_merge": 0}
     slots = [pair[0][0] for pair in M.get_dummy_atoms()] if _pairs(M.get_dummy_atoms()) else None
 
@@ -94,7 +97,7 @@ def observe(name):
                     raise
             G.merge = merge
             try:
-                g = Glycan(name)
+                g = Glycan(name, root_orientation=ro)
                 try:
                     g.get_smiles()
                 except Exception:
@@ -124,7 +127,7 @@ def _is_prefix(a, b):
 def run(rep, tier, driver, names):
     if driver is None:
         return
-    names = list(dict.fromkeys(names))[: (400 if tier == "quick" else 20000)]
+    names = list(dict.fromkeys(tuple(n) if isinstance(n, list) else n for n in names))[: (400 if tier == "quick" else 20000)]
     obs = pmap(observe, names, chunk=4)
     reqs, keep = [], []
     st = {"glycans": 0, "no_merge_reached": 0, "mark_exact": 0, "merge_exact": 0, "prefix_on_chemistry_error": 0,
